@@ -302,10 +302,11 @@ def run(ctx):
                       "BaseKillPlugin::run returns ASYNC_PAUSED without DEFER")
     for f in ctx.fns("Oomd::KillPgScan::run"):
         ff = Flow(P, f, cg=ctx.cg)
-        for r in returns(f):
-            if ret_const(f, r) == "ASYNC_PAUSED":
+        for r, leaf in return_leaves(f):
+            if ret_const_of(f, leaf) == "ASYNC_PAUSED":
                 ctx.count("async_returns")
-                ctx.check(has_fact(ff.guards(r), False, "has_prev_tick_data"), "async-only-without-prev-tick:KillPgScan::run",
+                # `return c ? a : b`: the alternative sits in its own block and carries the polarity of c
+                ctx.check(has_fact(ff.guards(r), False, "has_prev_tick_data") or has_fact(ff.guards(leaf), False, "has_prev_tick_data"), "async-only-without-prev-tick:KillPgScan::run",
                           "return_table", f.loc(r), "ASYNC_PAUSED only while the second sample is missing",
                           "KillPgScan::run returns ASYNC_PAUSED although previous-tick data exist")
         init, v = local_init(f, "has_prev_tick_data")
